@@ -41,6 +41,8 @@ CLASSES = collections.OrderedDict([
     ('trailing-backslash', r'[a-z/]*\\'),
     ('non-ascii', r'[a-z]*[é中][a-z]*'),
     ('line-break', r'[a-z]*[\r\n][a-z]*'),
+    ('crlf-pair', r'[a-z]*\r\n[a-z]*'),
+    ('line-break-run', r'[a-z]*[\r\n][\r\n][a-z]*'),
     ('tab', r'[a-z]*\t[a-z]*'),
     ('leading-trailing-space', r' [a-z]* '),
     ('empty', r''),
@@ -147,6 +149,24 @@ def norm(v):
     return v
 
 
+HISTORY = {'mode': 0}
+POISON = {1: 'READ(InFileName = x.csv, InFieldName = A)\nB = Copy(\n  InFieldName = = A)\n',       # EEMS 2.0 command reduced, then a syntax error on line 3
+          2: 'READ(InFileName = x.csv, InFieldName = A, NewFieldName = Z)\n'}                        # a successful EEMS 2.0 parse
+
+
+def earlier_loads():
+    """what the same process did before the reload: nothing, a load that FAILED after EEMS 2.0 syntax had been seen, or a
+    load of an EEMS 2.0 file - the reload must not depend on it"""
+    from mpilot.program import Program
+    text = POISON.get(HISTORY['mode'])
+    if text is None:
+        return
+    try:
+        Program.from_source(text, libraries=('mpilot.libraries.eems.csv', 'mpilot.libraries.eems.basic'))
+    except Exception:      # noqa: B902
+        pass
+
+
 def round_trip(build, label):
     """build() -> Program; serialise, reload, compare.  -> (ok, detail)"""
     from mpilot.program import Program
@@ -160,6 +180,7 @@ def round_trip(build, label):
         text = p.to_string()
     except Exception as e:      # noqa: B902
         return False, 'to_string raised %s: %s' % (type(e).__name__, e)
+    earlier_loads()
     try:
         q = Program.from_source(text, libraries=LIBS)
     except (E.MPilotError, SyntaxError) as e:
@@ -320,11 +341,14 @@ B = EEMSRead(InFileName = "%s", InFieldName = B)
 F = CvtToFuzzy(InFieldName = A, TrueThreshold = 1e-05, FalseThreshold = 4, Metadata = [DisplayName: "Fuzzy A", Description: "x: y"])
 G = CvtToFuzzyCurve(InFieldName = B, RawValues = [-1, 0.5, 3], FuzzyValues = [-1, 0.25, 1])
 U = FuzzyWeightedUnion(InFieldNames = [F, G], Weights = [0.1, 2])
-''' % (data, data)
+M = CvtToFuzzyMeanToMid(InFieldName = A, IgnoreZeros = False, FuzzyValues = [-1, -0.5, 0, 0.5, 1])
+W = EEMSWrite(OutFileName = "%s", OutFieldNames = [U, F])
+''' % (data, data, data + '.out')
     obs, groups = [], {}
     p = Program.from_source(src)
     text = p.to_string()
     try:
+        earlier_loads()
         q = Program.from_source(text)
         p.run()
         q.run()
@@ -336,10 +360,19 @@ U = FuzzyWeightedUnion(InFieldNames = [F, G], Weights = [0.1, 2])
     lab = 'an EEMS model computes identical results after a serialise/load trip (%s)' % (detail or 'ok')
     obs.append((lab, z3.BoolVal(bool(same))))
     groups[lab] = 'eems-roundtrip'
+    try:
+        after = p.to_string()
+    except Exception as e:      # noqa: B902
+        after = 'to_string raised %s' % type(e).__name__
+    lab = 'running a program does not change what it serialises to (%s)' % ('ok' if after == text else 'differs: %r' % after[:200])
+    obs.append((lab, z3.BoolVal(after == text)))
+    groups[lab] = 'eems-serialisation-after-run'
     return {'outcome': 'eems', 'obligations': obs, 'groups': groups, 'replay': {'kind': 'eems', 'text': text[:600], 'detail': detail}, 'validated': True}
 
 
 def harness(ctx, cfg):
+    if cfg['kind'] in ('strings', 'floats', 'structure', 'eems'):
+        HISTORY['mode'] = ctx.choice('history', 3)
     return {'lemma-string': lemma_string, 'lemma-float': lemma_float, 'strings': strings_harness, 'floats': floats_harness,
             'structure': structure_harness, 'eems': eems_harness}[cfg['kind']](ctx, cfg)
 
